@@ -254,10 +254,17 @@ static void _rewind_action(Action *act)
         }
         _destroy_exec_ctx(e);
     }
-    /* reset outer block iterator and current pointer */
+    /* reset outer block iterator and current pointer, and forget how far
+     * the interrupted statement had got: the script starts over.
+     */
     if (e) {
         list_iterator_reset(e->stmtitr);
         e->cur = list_next(e->stmtitr);
+        e->processing = false;
+        if (e->plugitr) {
+            pluglist_iterator_destroy(e->plugitr);
+            e->plugitr = NULL;
+        }
     }
 }
 
